@@ -101,9 +101,10 @@ def resized (r : Rect) (s : Sz) (a : Anchor) : Rect :=
 
 /-- `offset`: `offset as u32 * 2` is a plain `u32` multiplication (no wrap below 2^31). -/
 def offset (r : Rect) (o : Int) : Rect :=
-  let size := if o ≥ 0 then r.size.satAdd (Sz.newEqual (o.toNat * 2))
-              else r.size.satSub (Sz.newEqual ((-o).toNat * 2))
-  withCenter r.center size
+  if o ≥ 0 then
+    -- growing moves the top left corner directly (a zero sized side has no centre pixel)
+    ⟨r.tl - ⟨o, o⟩, r.size.satAdd (Sz.newEqual (o.toNat * 2))⟩
+  else withCenter r.center (r.size.satSub (Sz.newEqual ((-o).toNat * 2)))
 
 def rows (r : Rect) : List Int := irange r.tl.y (satAddI32 r.tl.y (satAsI32 r.size.h))
 def columns (r : Rect) : List Int := irange r.tl.x (satAddI32 r.tl.x (satAsI32 r.size.w))
